@@ -33,6 +33,26 @@ class UtilsStub:
         return "<graph>"
 
 
+NLMUL = z3.Function("times", REAL, REAL, REAL)
+
+
+def mul(a, b):
+    """the product of two column values.  In the quantified (unbounded) harnesses multiplication of two non-constant terms is the
+    uninterpreted symbol `times` with the two facts used (0*b = 0, 1*b = b): everything proved for an arbitrary such function holds for
+    real multiplication, and the solver is spared nonlinear integer reasoning (which made verdicts flip under load).  Concrete instances
+    use real multiplication, so their counterexamples are genuine."""
+    c = core.ctx()
+    if getattr(c, "mul_abstract", False):
+        return NLMUL(a, b)
+    return a * b
+
+
+def abstract_mul(c):
+    c.mul_abstract = True
+    b = z3.Real("mb")
+    c.assume(z3.ForAll([b], z3.And(NLMUL(0, b) == 0, NLMUL(1, b) == b)))
+
+
 class Member:
     """a set / dict of which only membership is read"""
     def __init__(self, pred, label="member"):
@@ -184,7 +204,7 @@ class Solver(Tracked):
         lo, hi = lift(lb), lift(ub)
         lo = z3.ToReal(lo) if lo.sort() == INT else lo
         hi = z3.ToReal(hi) if hi.sort() == INT else hi
-        c.assume(z3.Implies(z3.And(z3.Or(b == 0, b == 1), lo <= cc, cc <= hi), R == (p == b * cc)))
+        c.assume(z3.Implies(z3.And(z3.Or(b == 0, b == 1), lo <= cc, cc <= hi), R == (p == mul(b, cc))))
         self.store.add(R)
 
 
@@ -197,7 +217,7 @@ def _integer_product(self, integer_var, continuous_var, product_var, lb, ub, nam
     lo, hi = lift(lb), lift(ub)
     lo = z3.ToReal(lo) if lo.sort() == INT else lo
     hi = z3.ToReal(hi) if hi.sort() == INT else hi
-    c.assume(z3.Implies(z3.And(z3.IsInt(x), 0 <= x, x <= hi, lo <= cc, cc <= hi, lo <= 0, 0 <= hi), R == (p == x * cc)))
+    c.assume(z3.Implies(z3.And(z3.IsInt(x), 0 <= x, x <= hi, lo <= cc, cc <= hi, lo <= 0, 0 <= hi), R == (p == mul(x, cc))))
     self.store.add(R)
 
 
@@ -304,6 +324,7 @@ def edge_encoder(relpath, qualname, P, wt, fams, products, summed, edge_rows, ex
             setattr(me, a, {})
 
     def h(c, f):
+        abstract_mul(c)
         g = Graph(c)
         k = c.fresh_const("k", INT)
         wmax = c.fresh_const("w_max", REAL)
@@ -465,8 +486,8 @@ def _is_concrete(it):
 def dag_units():
     out = []
     for wt in (int, float):
-        prod_pi = lambda u, v, i: PI(u, v, i) == X(u, v, i) * W(i)
-        prod_gamma = lambda u, v, i: GAMMA(u, v, i) == X(u, v, i) * SLACK(i)
+        prod_pi = lambda u, v, i: PI(u, v, i) == mul(X(u, v, i), W(i))
+        prod_gamma = lambda u, v, i: GAMMA(u, v, i) == mul(X(u, v, i), SLACK(i))
         # E1 flow decomposition (C02)
         out.append(edge_encoder("flowpaths/kflowdecomp.py", "kFlowDecomp._encode_flow_decomposition", "C02", wt,
                                 fams=[("pi", PI, 3, "edge", "wt"), ("w", W, 1, "path", "wt")], products=[prod_pi], summed={"pi_var": (PI, "sum_pi")},
@@ -489,8 +510,8 @@ def dag_units():
 def cyc_units():
     out = []
     for wt in (int, float):
-        prod_pi = lambda u, v, i: PI(u, v, i) == X(u, v, i) * W(i)
-        prod_gamma = lambda u, v, i: GAMMA(u, v, i) == X(u, v, i) * SLACK(i)
+        prod_pi = lambda u, v, i: PI(u, v, i) == mul(X(u, v, i), W(i))
+        prod_gamma = lambda u, v, i: GAMMA(u, v, i) == mul(X(u, v, i), SLACK(i))
         out.append(edge_encoder("flowpaths/kflowdecompcycles.py", "kFlowDecompCycles._encode_flow_decomposition", "C02", wt, cyc=True,
                                 fams=[("pi", PI, 3, "edge", "wt"), ("weights", W, 1, "path", "wt")], products=[prod_pi], summed={"pi_var": (PI, "sum_pi")},
                                 edge_rows=lambda u, v, S, fl: S["pi_var"] == fl,
@@ -1280,6 +1301,225 @@ def u_subset_constraints():
     return u
 
 
+# =====================================================================================================================
+# MinGenSet._create_solver (C15): an admitted assignment IS a generating set of size k
+
+def u_mingenset(wt, multi):
+    P = "C15"
+    B = z3.Function("genset_var", INT, REAL)                       # i-th element of the generating set
+    XM = z3.Function("x_multiplicity_var", INT, INT, REAL)          # how often element i is used for number j
+    PX = z3.Function("pi_product_var", INT, INT, REAL)
+    NUM = z3.Function("number_at", INT, REAL)
+    st = {}
+    i_, j_ = z3.Ints("qi qj")
+    rng = lambda q, hi: z3.And(q >= 0, q < lift(hi))
+
+    def num_rows(j):
+        return z3.And(z3.ForAll([i_], z3.Implies(rng(i_, st["k"]), PX(i_, j) == mul(XM(i_, j), B(i_)))), st["PS"](j, st["k"]) == NUM(j))
+
+    def inv_j(ns, seq, done):
+        return {"rows-so-far=every-number-seen-is-the-sum-of-(multiplicity x element)":
+                lift(ns["self"].solver.store.holds) == z3.And(st["H_j"], z3.ForAll([j_], z3.Implies(rng(j_, done), num_rows(j_))))}
+
+    def on_entry_j(ns, it=None):
+        st["H_j"] = lift(ns["self"].solver.store.holds)
+
+    def on_entry_i(ns, it=None):
+        st["H_i"] = lift(ns["self"].solver.store.holds)
+        st["cur_j"] = lift(ns["j"])
+
+    def inv_i(ns, seq, done):
+        j = st["cur_j"]
+        return {"product-rows-so-far=exactly-(pi = multiplicity x element)-for-the-elements-seen":
+                lift(ns["self"].solver.store.holds) == z3.And(st["H_i"], z3.ForAll([i_], z3.Implies(rng(i_, done), PX(i_, j) == mul(XM(i_, j), B(i_)))))}
+
+    def h(c, f):
+        abstract_mul(c)
+        k, n = c.fresh_const("k", INT), c.fresh_const("n_numbers", INT)
+        total, mm = c.fresh_const("total", REAL), (z3.IntVal(1) if not multi else c.fresh_const("max_multiplicity", INT))
+        c.assume(z3.And(k >= 1, n >= 0, total >= 0))
+        if multi:
+            c.assume(mm >= 2)
+        c.assume(z3.ForAll([j_], z3.Implies(rng(j_, n), NUM(j_) >= 0)))
+        st.update(k=k, n=n)
+        st["BS"] = prefix_sum(c, "sum_of_elements", lambda q: B(q), 0)
+        st["PS"] = prefix_sum(c, "sum_of_products_for_number", lambda j, q: PX(q, j), 1)
+
+        class Me(Tracked):
+            pass
+        me = Me()
+        sol = Solver({"gen_set": (B, 1), "x": (XM, 2), "pi": (PX, 2)})
+        sol.store.holds = Sym(z3.BoolVal(True))              # a freshly created model has no rows
+
+        def recognise(indexes, name_prefix):
+            if isinstance(indexes, SymSeq) and name_prefix == "gen_set":
+                q0 = c.fresh_const("arbitrary_position", INT)
+                c.assume(z3.And(q0 >= 0, q0 < k))
+                if c._valid(z3.And(lift(indexes.length()) == k, lift(indexes.at(q0)) == q0)):
+                    return IdxSet("genset_indexes", lambda i: z3.And(i >= 0, i < k), 1)
+            if isinstance(indexes, LazyProduct):
+                a0, b0 = c.fresh_const("arbitrary_element", INT), c.fresh_const("arbitrary_number", INT)
+                it1 = indexes.it1
+                if isinstance(it1, SymRange) and c._valid(lift(it1.length()) == k):
+                    c.assume(z3.And(a0 >= 0, a0 < k))
+                    x1 = it1.at(a0)
+                    it2 = indexes.it2fn(x1)
+                    c.assume(z3.And(b0 >= 0, b0 < lift(it2.length())))
+                    key = indexes.fn(x1)(it2.at(b0))
+                    if len(key) == 2 and c._valid(z3.And(lift(it2.length()) == n, lift(key[0]) == a0, lift(key[1]) == b0)):
+                        return IdxSet("x_indexes", lambda i, j: z3.And(i >= 0, i < k, j >= 0, j < n), 2)
+            raise Unsupported("index list not recognised (%s)" % name_prefix)
+        orig_add = sol.add_variables
+        sol.add_variables = lambda indexes, name_prefix="", lb=0, ub=1, var_type="integer": orig_add(recognise(indexes, name_prefix), name_prefix=name_prefix, lb=lb, ub=ub, var_type=var_type)
+
+        def linked_sum(it):
+            r = Solver.quicksum(sol, it)
+            bs = c.sums[-1]
+            tj = z3.Int(c.name("tj"))
+            t = bs.t(tj)
+            if c._valid(z3.And(bs.n == k, t == B(tj))):
+                S = st["BS"]
+                link_sum(c, "sum-built-by-the-code=sum-of-the-elements", lambda q: S(q), lambda q: z3.Implies(q >= 0, S(q + 1) == S(q) + B(q)), k, prop=P)
+                return r
+            if z3.is_app(t) and t.decl().eq(PX):
+                jt = t.arg(1)
+                if c._valid(z3.And(bs.n == k, t == PX(tj, jt))):
+                    S = st["PS"]
+                    link_sum(c, "sum-built-by-the-code=sum-over-the-elements-of-(multiplicity x element)-for-the-number", lambda q: S(jt, q), lambda q: z3.Implies(q >= 0, S(jt, q + 1) == S(jt, q) + PX(q, jt)), k, prop=P)
+                    return r
+            raise Unsupported("sum over something else than the elements / the products of a number: %s" % t)
+        sol.quicksum = linked_sum
+
+        class SWMod:
+            @staticmethod
+            def SolverWrapper(**kw):
+                return sol
+        st["sw"] = SWMod
+
+        def sym_break(kk):
+            """CONTRACT of _encode_symmetry_breaking (its own unit): elements 0 .. k-2 are sorted"""
+            sol.store.add(z3.ForAll([i_], z3.Implies(z3.And(i_ >= 0, i_ < lift(kk) - 2), B(i_) <= B(i_ + 1))))
+        me._encode_symmetry_breaking = sym_break
+        me._encode_partition_constraints = lambda kk: (_ for _ in ()).throw(Unsupported("partition constraints"))
+        me.solver_options = {}
+        me.numbers = SymSeq(n, lambda q: Sym(NUM(lift(q))), SReal0, "numbers")
+        me.total, me.max_multiplicity = Sym(total), (1 if not multi else Sym(mm))
+        me.weight_type = BUILTINS["int"] if wt is int else BUILTINS["float"]
+        me.partition_constraints = None
+        f(me, Sym(k))
+        H = lift(sol.store.holds)
+        tname = "integer" if wt is int else "continuous"
+        c.prove("post:columns:k-elements-in-[0,total],-multiplicities-in-[0,max_multiplicity]-integer,-products",
+                z3.BoolVal({nm: r["var_type"] for nm, r in sol.created.items()} == {"gen_set": tname, "x": "integer", "pi": tname}), prop=P)
+        num = lambda t, hi, integer: z3.And(0 <= t, t <= hi, *([z3.IsInt(t)] if integer else []))
+        pi_ub = sol.created["pi"]["ub"]
+        c.prove("post:the-product-columns'-upper-bound-is-at-least-total-and-every-number-(no-admissible-product-is-cut-off)",
+                z3.And(pi_ub >= total, z3.ForAll([j_], z3.Implies(rng(j_, n), pi_ub >= NUM(j_)))), prop=P)
+        mmr = z3.ToReal(mm) if mm.sort() == INT else mm
+        full = z3.And(z3.ForAll([i_], z3.Implies(rng(i_, k), num(B(i_), total, wt is int))),
+                      z3.ForAll([i_, j_], z3.Implies(z3.And(rng(i_, k), rng(j_, n)), z3.And(num(XM(i_, j_), mmr, True), num(PX(i_, j_), pi_ub, wt is int)))),
+                      st["BS"](k) == total,
+                      z3.ForAll([j_], z3.Implies(rng(j_, n), num_rows(j_))),
+                      z3.ForAll([i_], z3.Implies(z3.And(i_ >= 0, i_ < k - 2), B(i_) <= B(i_ + 1))))
+        c.prove("post:SOUND-every-admitted-assignment-is-a-generating-set: the k elements sum to total and every number is a sum of (multiplicity x element) with multiplicities <= max_multiplicity",
+                z3.Implies(H, full), prop=P)
+        c.prove("post:COMPLETE-nothing-else-is-excluded-(beyond-sorting-the-first-k-1-elements)", z3.Implies(full, H), prop=P)
+
+    def concrete(inst):
+        def hc(c, f):
+            k, n = inst["k"], inst["n"]
+            total = c.fresh_const("total", REAL)
+            c.assume(total >= 0)
+            mmv = 1 if not multi else inst.get("mm", 3)
+            nums = [Sym(NUM(z3.IntVal(j))) for j in range(n)]
+            for x in nums:
+                c.assume(x.t >= 0)
+
+            class Me(Tracked):
+                pass
+            me = Me()
+            sol = Solver({"gen_set": (B, 1), "x": (XM, 2), "pi": (PX, 2)})
+            sol.store.holds = Sym(z3.BoolVal(True))
+
+            def addv(indexes, name_prefix="", lb=0, ub=1, var_type="integer"):
+                idx = [(x,) if not isinstance(x, tuple) else x for x in indexes]
+                return Solver.add_variables(sol, idx, name_prefix=name_prefix, lb=lb, ub=ub, var_type=var_type)
+            sol.add_variables = addv
+
+            class SWMod:
+                @staticmethod
+                def SolverWrapper(**kw):
+                    return sol
+            st["sw"] = SWMod
+            me._encode_symmetry_breaking = lambda kk: [sol.store.add(B(i) <= B(i + 1)) for i in range(kk - 2)]
+            me.solver_options, me.numbers, me.total, me.max_multiplicity = {}, nums, Sym(total), mmv
+            me.weight_type = BUILTINS["int"] if wt is int else BUILTINS["float"]
+            me.partition_constraints = None
+            f(me, k)
+            H = lift(sol.store.holds)
+            pi_ub = sol.created["pi"]["ub"]
+            num = lambda t, hi, integer: z3.And(0 <= t, t <= hi, *([z3.IsInt(t)] if integer else []))
+            rows = [num(B(i), total, wt is int) for i in range(k)]
+            rows += [z3.And(num(XM(i, j), z3.RealVal(mmv), True), num(PX(i, j), pi_ub, wt is int), PX(i, j) == mul(XM(i, j), B(i))) for i in range(k) for j in range(n)]
+            rows.append(sum([B(i) for i in range(k)], z3.RealVal(0)) == total)
+            rows += [sum([PX(i, j) for i in range(k)], z3.RealVal(0)) == NUM(j) for j in range(n)]
+            rows += [B(i) <= B(i + 1) for i in range(k - 2)]
+            full = z3.And(*rows)
+            c.prove("instance:product-bound-covers-total-and-every-number", z3.And(pi_ub >= total, *[pi_ub >= NUM(j) for j in range(n)]), prop=P)
+            c.prove("instance:SOUND-every-admitted-assignment-is-a-generating-set", z3.Implies(H, full), prop=P)
+            c.prove("instance:COMPLETE-nothing-else-is-excluded", z3.Implies(full, H), prop=P)
+        return hc
+
+    def instances():
+        return [(lab, concrete(i)) for lab, i in (("k=2,two-numbers", dict(k=2, n=2)), ("k=3,one-number", dict(k=3, n=1)), ("k=1,two-numbers", dict(k=1, n=2, mm=2)))]
+
+    fresh = lambda old: Sym(z3.Bool(core.ctx().name("H")))
+    mod = [(("self", "solver", "store", "holds"), fresh)]
+    # loop 0: numbers; loops 1 / 2: elements (binary / integer product branch)
+    loops = {0: dict(inv=inv_j, prop=P, modifies=mod, on_entry=on_entry_j, keep=("j", "i")),
+             1: dict(inv=inv_i, prop=P, modifies=mod, on_entry=on_entry_i, keep=("i",)),
+             2: dict(inv=inv_i, prop=P, modifies=mod, on_entry=on_entry_i, keep=("i",))}
+
+    class SWProxy:
+        def __getattr__(self, k_):
+            return getattr(st["sw"], k_)
+    return Unit("flowpaths/mingenset.py", "MinGenSet._create_solver", h, globs=dict(utils=UtilsStub, sw=SWProxy()), loops=loops, props=[P],
+                name="flowpaths/mingenset.py:MinGenSet._create_solver[weight_type=%s,%s]" % (wt.__name__, "max_multiplicity>=2" if multi else "max_multiplicity=1"), instances=instances,
+                callee_contracts=[A1C, "MinGenSet._encode_symmetry_breaking (elements 0..k-2 sorted)"],
+                assumptions=[A3, "no partition constraints (that encoder is decided by the bounded part)",
+                             "integer product helper: the bound passed, max(total, max_multiplicity), covers both factors (its C12 contract then makes the rows exact)"])
+
+
+from pyvc.heap import SReal as SReal0
+
+
+def u_symmetry_breaking():
+    P = "C15"
+    B = z3.Function("genset_var", INT, REAL)
+    st = {}
+    i_ = z3.Int("qi")
+
+    def inv(ns, seq, done):
+        return {"rows-so-far=elements-0..done-are-sorted": lift(ns["self"].solver.store.holds) == z3.And(st["H0"], z3.ForAll([i_], z3.Implies(z3.And(i_ >= 0, i_ < lift(done)), B(i_) <= B(i_ + 1))))}
+
+    def h(c, f):
+        k = c.fresh_const("k", INT)
+        c.assume(k >= 1)
+
+        class Me(Tracked):
+            pass
+        me = Me()
+        sol = Solver({})
+        me.solver = sol
+        me.genset_vars = VarMap("genset_vars", B, lambda i: z3.And(i >= 0, i < k), 1)
+        st["H0"] = lift(sol.store.holds)
+        f(me, Sym(k))
+        c.prove("post:exactly-the-rows-b(i)<=b(i+1)-for-i<k-2-(the-last-element-stays-free)", lift(sol.store.holds) == z3.And(st["H0"], z3.ForAll([i_], z3.Implies(z3.And(i_ >= 0, i_ < k - 2), B(i_) <= B(i_ + 1)))), prop=P)
+    fresh = lambda old: Sym(z3.Bool(core.ctx().name("H")))
+    return Unit("flowpaths/mingenset.py", "MinGenSet._encode_symmetry_breaking", h, globs=dict(utils=UtilsStub), props=[P],
+                loops={0: dict(inv=inv, prop=P, modifies=[(("self", "solver", "store", "holds"), fresh)], keep=("i",))}, callee_contracts=[A1C], assumptions=[A3])
+
+
 def all_units():
-    return dag_units() + cyc_units() + [u_subset_constraints()] + [u_min_error_flow(int), u_min_error_flow(float)] + [u_encode_paths(False), u_encode_paths(True)] + \
+    return dag_units() + cyc_units() + [u_subset_constraints()] + [u_mingenset(w, m_) for w in (int, float) for m_ in (False, True)] + [u_symmetry_breaking()] + [u_min_error_flow(int), u_min_error_flow(float)] + [u_encode_paths(False), u_encode_paths(True)] + \
         [u_cover("flowpaths/kpathcover.py", "kPathCover._encode_path_cover", "subpath_constraints"), u_cover("flowpaths/kpathcovercycles.py", "kPathCoverCycles._encode_walk_cover", "subset_constraints")]
